@@ -1,7 +1,18 @@
-from props import _generic as g
+"""C16 - the C extension accounts for every reference and stays inside its memory."""
 
 
 def run(ctx):
-    fns = g.run_pyvc(ctx, "C16")
-    ctx.standin("refcount_rt", families=tuple("OO,OI,IO".split(",")))
-    return "exploration", "bounded stand-in refcount_rt (no obligation of the deductive engines serves C16 yet)"
+    fams = ["OO", "OI", "IO"] if ctx.tier == "quick" else ["OO", "OI", "IO", "OL", "LO", "OU", "OQ", "UO", "QO"]
+    res = ctx.cvc(fams, ["T-REF"])
+    from cvc import tref
+    ctx.notes.append("functions NOT under the T-REF contract (slot-level ownership, bounded only): " + ", ".join(tref.OUTSIDE))
+    ctx.standin("refcount_rt", families=("OO", "OI", "IO") if ctx.tier == "quick" else ("OO", "OI", "IO", "OL", "LO"))
+    return "other", (
+        "T-REF, the local reference discipline, is proved for every function of the translation units (%s) except "
+        "the %d listed as outside the contract: every reference an activation acquires (new-reference API results, "
+        "Py_INCREF of locals, results of BTrees functions) is released, returned, stored into the container / an "
+        "out-parameter or stolen exactly once on every path, and nothing it does not own is released. Ownership of "
+        "the references held by container slots across memmove, and freedom from out-of-bounds access, are NOT proved "
+        "(needs separation logic, DESIGN.md section 10): bounded stand-in refcount_rt (per-call refcount equation on "
+        "every tracked key/value over histories incl. error paths, set algebra, merges, pickling, eviction)."
+        % (", ".join(fams), len(tref.OUTSIDE)))
